@@ -27,17 +27,25 @@ ASSUMPTIONS = ["only the name-level parser (css_string_nohash and its escape nor
 
 # source spellings of names
 PLAIN = ["a", "foo-bar", "_x", "x1", "b", "div"]
-NONASCII = ["é", "café", "中文", "Ωx"]
+NONASCII = ["é", "café", "中文", "Ωx", "𠀀x", "a𝓐", "𐌰"]          # incl. raw 4-byte (astral) letters
 ESC = ["\\E9m", "a\\.b", "caf\\e9 ", "\\@md", "ho\\ver", "a\\62 c", "a\\62c ", "\\1f x", "a\\ b",
-       "\\000041x", "a\\+b", "x\\31 ", "a\\:b", "\\#h", "a\\7e z", "-\\31 ", "a\\(b\\)"]
+       "\\000041x", "a\\+b", "x\\31 ", "a\\:b", "\\#h", "a\\7e z", "-\\31 ", "a\\(b\\)",
+       "a\\20000 b", "\\1d4d0 x", "x\\10000 ", "\\020000 "]          # astral characters as hex escapes
+# spellings the SCSS-level parser of a rule selector decodes differently: function route only
+ESC_FN = ["\\-x", "\\31 x", "\\31\\32 ", "\\e9 ", "\\-\\-a"]
 # escaped leading digits: the SCSS-level parser decodes them, which only the class printer undoes
 ESC_CLASS = ["\\31 x", "\\31\\32 ", "\\39 lives"]
 DIGIT = ["1x", "2", "9lives"]
 ELEM_EXTRA = ["ns|a", "*|a", "|a", "ns|*", "*"]
 
 
+FN_ONLY = [False]
+
+
 def pick_name(rng, kind):
     r = rng.random()
+    if FN_ONLY[0] and r < 0.12:
+        return rng.choice(ESC_FN)
     if r < 0.35:
         return rng.choice(PLAIN)
     if r < 0.5:
@@ -103,16 +111,21 @@ CORPUS = [
 
 def gen_cases(ctx, tier):
     rng = ctx.rng
-    cases = [{"s": s} for s in CORPUS]
-    n = 700 if tier == "quick" else 8000
-    for _ in range(n):
-        cases.append({"s": [gen_sel25(rng, rng.choice([0, 0, 1, 2])) for _ in range(rng.randint(1, 3))]})
+    cases = [{"s": s, "rule": True} for s in CORPUS]
+    cases += [{"s": [sel(comp(cl=["a\\20000 b"]))], "rule": True}, {"s": [sel(comp(cl=["𠀀"]))], "rule": True},
+              {"s": [sel(comp(id="\\-x"))], "rule": False}, {"s": [sel(comp(el="\\31 x"))], "rule": False}]
+    n = 500 if tier == "quick" else 8000
+    for i in range(n):
+        FN_ONLY[0] = (i % 4 == 0)
+        s = [gen_sel25(rng, rng.choice([0, 0, 1, 2])) for _ in range(rng.randint(1, 3))]
+        cases.append({"s": s, "rule": not any(e in t_sels(s) for e in ESC_FN)})
+    FN_ONLY[0] = False
     return cases
 
 
 def search_cases(ctx, broken):
     rng = ctx.rng
-    return [{"s": [gen_sel25(rng, rng.choice([0, 1])) for _ in range(rng.randint(1, 2))]} for _ in range(2500)]
+    return [{"s": [gen_sel25(rng, rng.choice([0, 1])) for _ in range(rng.randint(1, 2))], "rule": True} for _ in range(2500)]
 
 
 def sq(text):
@@ -124,16 +137,20 @@ def prog_of(c):
             "s2: is-superselector(selector-parse(&), &); }\n")
 
 
-def fn_prog_of(c):
+def fn_prog_of(c, part):
     t = sq(t_sels(c["s"]))
-    return (f"$t: {t};\n$p: selector-parse($t);\n"
-            "a { a1: $p; as1: is-superselector($p, $t); as2: is-superselector($t, $p); }\n")
+    head = f"$t: unquote({t});\n$p: selector-parse($t);\n"
+    if part == 0:
+        return head + "a { t0: $t; a1: $p; }\n"
+    if part == 1:
+        return head + "a { as1: is-superselector($p, $t); as2: is-superselector($t, $p); }\n"
+    return head + "a { a2: selector-parse($p); }\n"
 
 
 def impl_requests(c):
-    rs = [("scss", "expanded", "10", prog_of(c))]
-    if "\\" not in t_sels(c["s"]):
-        rs.append(("scss", "expanded", "10", fn_prog_of(c)))
+    rs = [("scss", "expanded", "10", fn_prog_of(c, i)) for i in range(3)]
+    if c.get("rule", True):
+        rs.append(("scss", "expanded", "10", prog_of(c)))
     return rs
 
 
@@ -155,41 +172,54 @@ def tri(b):
 
 
 def coq_term(c, io):
-    t1, f1 = io[0]
-    p1 = p2 = emit = a1 = None
+    p1 = p2 = emit = a1 = a2 = None
     s1 = s2 = as1 = as2 = 2
-    if t1 == "ok":
-        css = strip_charset(f1[0])
+    a2st = 2
+    src = t_sels(c["s"]).encode()
+    if io[0][0] == "ok":
+        css = strip_charset(io[0][1][0])
+        if field(css, b"t0") == src:        # the string really is the text T
+            a1 = field(css, b"a1")
+    if a1 is not None:
+        if io[1][0] == "ok":
+            css = strip_charset(io[1][1][0])
+            as1, as2 = tri(field(css, b"as1")), tri(field(css, b"as2"))
+        a2st = 0 if io[2][0] == "ok" else (1 if io[2][0] == "err" else 2)
+        if io[2][0] == "ok":
+            a2 = field(strip_charset(io[2][1][0]), b"a2")
+    rule = c.get("rule", True)
+    if rule and io[3][0] == "ok":
+        css = strip_charset(io[3][1][0])
         p1, p2 = field(css, b"p1"), field(css, b"p2")
         s1, s2 = tri(field(css, b"s1")), tri(field(css, b"s2"))
         emit = emitted_selector(css)
-    if len(io) > 1 and io[1][0] == "ok":
-        css = strip_charset(io[1][1][0])
-        a1 = field(css, b"a1")
-        as1, as2 = tri(field(css, b"as1")), tri(field(css, b"as2"))
     return (f"(mkCase {q_sels(c['s'])} {q_otext(p1)} {q_otext(p2)} {s1}%N {s2}%N {q_otext(emit)} "
-            f"{q_otext(a1)} {as1}%N {as2}%N)")
+            f"{q_otext(a1)} {as1}%N {as2}%N {q_otext(a2)} {a2st}%N {cbool(rule)})")
 
 
 def judge(c, io, r):
     corr, c1, c2, c3, dc, parsed, comb = r
-    src0 = t_sels(c["s"])
-    k = None
-    if "\\" not in src0:          # the classes concern selector.parse("T"), which is only run for T without backslashes
-        k = "known_C25_K1_digit_leading_class" if dc else ("known_C25_K2_combinator_in_value" if comb else None)
+    k = "known_C25_K1_digit_leading_class" if dc else ("known_C25_K2_combinator_in_value" if comb else None)
     src = t_sels(c["s"])
     return {
         "corr": corr == 1,
         "clauses": [("print-parse-print-fixpoint", c1 == 1, None), ("reparse-gives-same-list", c2 == 1, k),
                     ("emitted-is-printed-parse", c3 == 1, None)],
         "nontrivial": ("\\" in src) or any(ord(ch) > 127 for ch in src) or bool(re.search(r"[.#][0-9]", src)),
+        "key": src,
         "tags": ["parsed" if parsed else "rejected"] + (["digit-class"] if dc else []) + (["combinator"] if comb else []),
         "show": src,
-        "detail": prog_of(c) + fn_prog_of(c),
+        "detail": fn_prog_of(c, 0) + fn_prog_of(c, 2) + prog_of(c),
     }
 
 
 def shrink(c):
+    for d in _shrink(c):
+        d["rule"] = c.get("rule", True)
+        yield d
+
+
+def _shrink(c):
     s = c["s"]
     if len(s) > 1:
         for i in range(len(s)):
